@@ -200,7 +200,8 @@ def norm(node):
     '''position-free structural key of a node'''
     if isinstance(node, list):
         return '[' + ','.join(norm(n) for n in node) + ']'
-    return ast.dump(node, annotate_fields=False, include_attributes=False)
+    d = ast.dump(node, annotate_fields=False, include_attributes=False)
+    return d.replace(', Load()', '').replace(', Store()', '').replace(', Del()', '')
 
 
 def src(node):
